@@ -10,6 +10,7 @@ import GabiModel.Ops.RevOps
 import GabiModel.Ops.Serial
 import GabiModel.Ops.KeyGenOps
 import GabiModel.Ops.KeyProofOps
+import GabiModel.Ops.Conc
 namespace Gabi.Ops
 open Lean Gabi Gabi.Wire
 
@@ -20,7 +21,8 @@ def handlers : List Handler := [
   RevOps.handle,
   Serial.handle,
   KeyGenOps.handle,
-  KeyProofOps.handle
+  KeyProofOps.handle,
+  Conc.handle
 ]
 
 def run (st : State) (op : String) (j : Json) : R (State × String) :=
